@@ -6,10 +6,11 @@ import NeumannModel.TwoPC.Model
   system step extended with it.  Import-free apart from `Model.lean`, total, computable; mirrors the
   code branch by branch — it models what the code does.
 
-  These entry points are OUTSIDE property C03's quantifier (the property speaks of message
-  interleavings and timeouts, not of coordinator restarts / partition merges): results about them are
-  stated over the extended reachability relations `ReachR` / `ReachRS` / `ReachRF` below, like the
-  `ReachExt` theorems of `Props.lean`.
+  Results about them are stated over the extended reachability relations `ReachR` / `ReachRS` /
+  `ReachRF` below; `Restart.lean` adds checkpoint / restore cycles (`ReachK`), over which
+  `PropsRestart.lean` states "the decision never changes" across coordinator restarts.  `force_resolve`
+  (partition merges) and a timeout sweep / `abort()` over a `Committing` entry are outside property
+  C03's quantifier.
 
   Not modelled: the coordinator-local lock manager (`release_by_handle_with_wait_cleanup` of the YES
   votes' handles, `cleanup_expired_with_wait_cleanup`) and the wait-for graph — that lock manager is
